@@ -418,11 +418,12 @@ class RenderContext:
         """Just like `Context.extend`, but keeps track of ForLoop objects too."""
         self.raise_for_loop_limit(forloop.length)
         self.loops.append(forloop)
-        with self.extend(namespace) as context:
-            try:
+        try:
+            with self.extend(namespace) as context:
                 yield context
-            finally:
-                self.loops.pop()
+        finally:
+            # Also when `extend` itself refuses (context depth limit).
+            self.loops.pop()
 
     def parentloop(self, token: TokenT) -> Undefined | object:
         """Return the last ForLoop object from the loop stack."""
